@@ -9,7 +9,7 @@ import sys
 
 from vp import common
 from vp.common import cn, clist, copt
-from vp.schedrun import OUTCOMES, OUTCOME_MODEL, spec_status, is_cyclic
+from vp.schedrun import OUTCOMES, OUTCOME_MODEL, spec_status, is_cyclic, semantic_deps
 
 IMPORTS = '''From Coq Require Import List.
 From VV Require Import Lib.Base Sched.Model Sched.Replay.
@@ -40,6 +40,42 @@ def gen_graph(rng, n, p_hard=0.35, p_soft=0.2):
     return [sorted(x) for x in hard], [sorted(x) for x in soft]
 
 
+def add_stages(rng, case):
+    '''turn the plain graphs into graphs with 1-2 nested "stage" nodes (DepGraph objects used as
+    nodes, possibly empty, shared by the hard and the soft graph)'''
+    n = case['n']
+    nst = rng.choice([1, 1, 2])
+    stages = [[] for _ in range(nst)]
+    for k in range(nst):
+        if rng.random() < 0.4:
+            continue                      # an empty stage
+        for t in range(n):
+            if rng.random() < 0.3 and not any(t in ms for ms in stages):
+                stages[k].append(t)
+    member = {m for ms in stages for m in ms}
+    top = [t for t in range(n) if t not in member] + [n + k for k in range(nst)]
+    rng.shuffle(top)
+    hard = [[] for _ in range(n + nst)]
+    soft = [[] for _ in range(n + nst)]
+    for i, a in enumerate(top):
+        for b in top[:i]:
+            r = rng.random()
+            if r < 0.35:
+                hard[a].append(b)
+            elif r < 0.6:
+                soft[a].append(b)
+    for ms in stages:                      # inner edges: hard only
+        order = list(ms)
+        rng.shuffle(order)
+        for i, a in enumerate(order):
+            for b in order[:i]:
+                if rng.random() < 0.4:
+                    hard[a].append(b)
+    case['hard'] = [sorted(x) for x in hard]
+    case['soft'] = [sorted(x) for x in soft]
+    case['stages'] = [sorted(ms) for ms in stages]
+
+
 def gen_outcomes(rng, n, p_ok=0.65):
     return [('done:%d' % rng.randrange(8) if rng.random() < 0.9 else 'intstatus') if rng.random() < p_ok
             else rng.choice(OUTCOMES[1:9]) + ':%d' % rng.randrange(63) for _ in range(n)]
@@ -50,6 +86,8 @@ def gen_case(rng, focus, big=False):
     hard, soft = gen_graph(rng, n)
     workers = rng.choice([1, 2, 2, 3])
     case = {'n': n, 'hard': hard, 'soft': soft, 'workers': workers}
+    if focus != 'C03' and n >= 2 and rng.random() < 0.22:
+        add_stages(rng, case)
     strategies = ['uniform', 'uniform', 'pct', 'pct', 'master_last', 'master_first']
     nruns = 1
     if focus == 'C04':
@@ -117,6 +155,13 @@ CORPUS = [
      'runs': [{'outcomes': ['badupdate:1', 'done'], 'strategy': 'uniform', 'seed': 21}]},
     {'n': 3, 'hard': [[], [0], [1]], 'soft': [[], [], []], 'workers': 2,
      'runs': [{'outcomes': ['badupdate:4', 'badstatus:1', 'notpair:6'], 'strategy': 'uniform', 'seed': 22}]},
+    # C01: an empty stage with its incoming edge in the soft graph and its outgoing edge in the hard graph
+    {'n': 2, 'hard': [[], [], [0]], 'soft': [[], [2], []], 'stages': [[]], 'workers': 2,
+     'runs': [{'outcomes': ['done', 'done'], 'strategy': 'master_first', 'seed': 32}]},
+    {'n': 4, 'hard': [[], [], [4], [], [1]], 'soft': [[], [], [], [4], [0]], 'stages': [[]], 'workers': 3,
+     'runs': [{'outcomes': ['done', 'raise', 'done', 'done'], 'strategy': 'pct', 'seed': 33}]},
+    {'n': 4, 'hard': [[], [0], [5], [], [], [4]], 'soft': [[], [], [], [5], [], []], 'stages': [[0, 1], []], 'workers': 2,
+     'runs': [{'outcomes': ['done', 'done', 'done', 'done'], 'strategy': 'uniform', 'seed': 34}]},
     # C03: cyclic graph; stale statuses in the initial environment
     {'n': 2, 'hard': [[1], [0]], 'soft': [[], []], 'workers': 2,
      'runs': [{'outcomes': ['done', 'done'], 'strategy': 'uniform', 'seed': 6}]},
@@ -236,7 +281,11 @@ FINAL = ('DONE', 'FAILED', 'SKIPPED')
 
 
 def full_deps(case):
-    return [sorted(set(case['hard'][t]) | set(case['soft'][t])) for t in range(case['n'])]
+    return semantic_deps(case)[0]
+
+
+def hard_deps(case):
+    return semantic_deps(case)[1]
 
 
 def oracle_c01(ctx, case, run):
@@ -262,7 +311,7 @@ def oracle_c02(ctx, case, run):
         ctx.oracle_failure(f'schedule() from an empty environment ended with {run["result"]} '
                            f':: {brief(case)}', replay_case(case, run), key='no-return')
         return
-    want = spec_status(case['n'], case['hard'], run['outcomes'])
+    want = spec_status(case['n'], hard_deps(case), run['outcomes'])
     got = [None if e is None else e[0] for e in run['env_after']]
     if got != want:
         ctx.oracle_failure(f'final statuses {got} differ from the schedule-independent specification '
@@ -311,7 +360,7 @@ def oracle_c04(ctx, case, run):
                     ctx.oracle_failure(f't{t} is DONE but its DONE dependency t{d} finished at {ed[3]}, '
                                        f'after t{t} started at {e[2]} :: {brief(case)}', rc,
                                        key='stale-done')
-        for d in case['hard'][t]:
+        for d in hard_deps(case)[t]:
             ed = env[d]
             if ed is not None and ed[0] in ('FAILED', 'SKIPPED'):
                 ctx.oracle_failure(f't{t} is DONE but its hard dependency t{d} is {ed[0]} '
@@ -331,7 +380,7 @@ def oracle_c04(ctx, case, run):
         trans = closure(t, set())
         if all(env0[d] is not None and env0[d][0] == 'DONE' for d in trans) \
                 and all(run['execs'][d] == 0 for d in trans) \
-                and consistent_sub(env0, full, case['hard'], trans | {t}):
+                and consistent_sub(env0, full, hard_deps(case), trans | {t}):
             if run['execs'][t] != 0 or env[t] != env0[t]:
                 ctx.oracle_failure(f't{t} was DONE with all transitive dependencies DONE and not '
                                    f're-executed, yet it was executed {run["execs"][t]} times / its entry '
@@ -361,7 +410,7 @@ ORACLES = {'C01': oracle_c01, 'C02': oracle_c02, 'C03': oracle_c03, 'C04': oracl
 
 
 def brief(case):
-    return json.dumps({k: case[k] for k in ('n', 'hard', 'soft', 'workers', 'reuse') if k in case})
+    return json.dumps({k: case[k] for k in ('n', 'hard', 'soft', 'stages', 'workers', 'reuse') if k in case})
 
 
 def replay_case(case, run):
@@ -390,7 +439,8 @@ def coq_event(ev):
 
 def coq_case(case, run):
     n = case['n']
-    full = full_deps(case)
+    full = run.get('impl_deps') or full_deps(case)
+    hard = run.get('impl_hdeps') or hard_deps(case)
     oc = []
     for kind in run['outcomes']:
         u, k = OUTCOME_MODEL.get(kind.partition(':')[0], (False, False))
@@ -399,7 +449,7 @@ def coq_case(case, run):
         else '(Some ' + clist([cn(x) for x in run['order']]) + ')'
     result = 0 if run['result'] == 'returned' else 1 if run['result'].startswith('raised') else 2
     return ('(mkCase ' + cn(n) + ' ' + clist([clist([cn(d) for d in ds]) for ds in full]) + ' '
-            + clist([clist([cn(d) for d in ds]) for ds in case['hard']]) + ' ' + order + ' '
+            + clist([clist([cn(d) for d in ds]) for ds in hard]) + ' ' + order + ' '
             + cn(case['workers']) + ' ' + clist(oc) + ' ' + clist([coq_entry(e) for e in run['env0']])
             + ' ' + clist([cn(x) for x in run['started0']]) + ' ' + cn(run['clock_start'] or 0) + '\n  '
             + clist([coq_event(ev) for ev in run['trace']]).replace('); (', ');\n   (') + ' ' + cn(result) + ')')
@@ -480,6 +530,13 @@ def run(ctx, focus):
             for kind in run_['outcomes']:
                 ctx.count('outcome_' + kind.partition(':')[0])
             nt = nt or nontrivial(case, run_)
+            if not case.get('stages') and not run_['cyclic'] and run_.get('impl_deps') is not None \
+                    and (run_['impl_deps'] != full_deps(case) or run_['impl_hdeps'] != hard_deps(case)):
+                ctx.mismatch(f'the graphs prepared by Scheduler.__init__ (full {run_["impl_deps"]}, hard '
+                             f'{run_["impl_hdeps"]}) are not the generated ones :: {brief(case)}',
+                             replay_case(case, run_))
+            if run_.get('prep_error'):
+                ctx.mismatch(f'cannot read the prepared graphs: {run_["prep_error"]}', replay_case(case, run_))
             coq_items.append(coq_case(case, run_))
             owners.append((case, run_))
         sample = dict(case)
